@@ -74,6 +74,10 @@ def hook(e, fr, st, kind, loc, new, old, ins, site):
             v = e.load_loc(st, loc)
             st.assume(Implies(held, v == r.acq[1]))
             return
+        if kind == 'pre':
+            cur = e.load_loc(st, loc)
+            st.assume(Implies(held, cur == r.acq[1]))
+            return
         if kind == 'cas':
             frm, to = cv(old), cv(new)
             if z3.is_int_value(frm) and z3.is_int_value(to):
@@ -102,6 +106,7 @@ def hook(e, fr, st, kind, loc, new, old, ins, site):
         if kind == 'add':
             e.oblige(st, fr, 'token.word', r.token, BoolVal(False), site, text='Add on lock word %s' % r.key)
             return
+    if kind == 'pre': return
     if r.kind == 'onceword':
         tk, tidx = tok_loc(e, r, loc)
         if kind == 'add':
